@@ -258,12 +258,15 @@ type SPConf struct {
 var live struct {
 	on   bool
 	m    map[string]*saml2.SAMLServiceProvider
-	last []interface{} // results handed out by the previous call (see Remember)
+	last []interface{} // results handed out while the current case is judged (see Remember)
+	prev []interface{} // ... and while the case before it was judged
 }
 
 // LiveBegin switches live mode on (single-threaded use only); LiveEnd switches it off.
-func LiveBegin() { live.on, live.m, live.last = true, map[string]*saml2.SAMLServiceProvider{}, nil }
-func LiveEnd()   { live.on, live.m, live.last = false, nil, nil }
+func LiveBegin() {
+	live.on, live.m, live.last, live.prev = true, map[string]*saml2.SAMLServiceProvider{}, nil, nil
+}
+func LiveEnd() { live.on, live.m, live.last, live.prev = false, nil, nil, nil }
 
 // LiveOn reports whether live mode is on.
 func LiveOn() bool { return live.on }
@@ -276,9 +279,11 @@ func Remember(v interface{}) {
 	}
 }
 
+// TakeRemembered returns the results of the case before the previous one (they have lived
+// through every call of the previous case) and shifts the generations.
 func TakeRemembered() []interface{} {
-	l := live.last
-	live.last = nil
+	l := live.prev
+	live.prev, live.last = live.last, nil
 	return l
 }
 
